@@ -49,6 +49,10 @@ def brute(ref: list, test: list) -> tuple[float, float]:
     return d, cnt / tot
 
 
+VALUE_TYPES = [("float", float), ("np.float64", np.float64), ("int", lambda v: int(v)), ("np.float32", np.float32), ("np.int64", lambda v: np.int64(v)),
+               ("float", float), ("np.int32", lambda v: np.int32(v)), ("np.float16", np.float16)]
+
+
 def sample(rng, n: int):
     kind = rng.choice(["gauss", "gauss", "ties", "int", "shift"])
     if kind == "gauss":
@@ -202,6 +206,13 @@ def run(out: Outcome) -> None:
             ref, stream = [1.0, 3.0, 5.0, 7.0, 9.0], [2.0, 4.0, 6.0, 8.0, 10.0]
         if i == 1:
             stream = list(ref)[:w] + stream
+        # value TYPE of the stream: Python floats, Python ints, NumPy scalars of several widths (elements of `scores.astype(np.float32)`, of an array of counts ...);
+        # the numbers are made exactly representable in the type, the expected results are those of the same numbers as Python floats
+        vt, cast = VALUE_TYPES[i % len(VALUE_TYPES)] if i >= 2 else VALUE_TYPES[0]
+        if vt in ("int", "np.int64", "np.int32"):
+            stream = [float(round(v)) for v in stream]
+        elif vt in ("np.float32", "np.float16"):
+            stream = [max(-200.0, min(200.0, round(v * 8) / 8.0)) for v in stream]
         inc = IncrementalKSTest(window_size=w)
         refit = None
         if i >= 2 and rng.random() < 0.5:
@@ -216,9 +227,9 @@ def run(out: Outcome) -> None:
         bat = KSTest()
         bat.fit(X=np.array(ref))
         for t, v in enumerate(stream, 1):
-            rep = {"ref": ref, "stream": stream[:t], "window": w, "kind": "incremental", "refit": refit}
+            rep = {"ref": ref, "stream": stream[:t], "window": w, "kind": "incremental", "refit": refit, "value_type": vt}
             try:
-                r, _ = inc.update(value=v)
+                r, _ = inc.update(value=cast(v))
             except Exception as e:  # noqa: BLE001
                 out.violation(f"IncrementalKSTest.update raised {type(e).__name__}: {e}", rep)
                 break
@@ -239,7 +250,7 @@ def run(out: Outcome) -> None:
             if t % 3 == 0 or t == w:
                 lines.append(f"ks {n} {w} " + " ".join(f2h(x) for x in ref + win))
                 expect.append(("IncrementalKSTest", float(r.statistic), float(r.p_value), rep, False))
-        out.case({"incremental": True, "n": n, "window": w, "steps": len(stream), "h": hash(tuple(ref + stream)) & 0xFFFFFF})
+        out.case({"incremental": True, "n": n, "window": w, "steps": len(stream), "value_type": vt, "h": hash(tuple(ref + stream)) & 0xFFFFFF})
     # a second fit() on a running detector (no reset): the reference is replaced, the window keeps sliding
     for _ in range(20 if thorough else 6):
         w = rng.choice([2, 4, 6, 8])
